@@ -447,7 +447,12 @@ func (it *stkInterp) evalOp(e ast.Expr) (bool, bool) {
 
 // zeroTerm: `T > 0`, `T != 0`, `0 < T` give T (false-branch: T = 0); `T == 0` (true-branch).
 func (it *stkInterp) zeroTerm(s *stkState, e ast.Expr) (term string, whenTrue bool, ok bool) {
-	b, isB := ast.Unparen(e).(*ast.BinaryExpr)
+	e = ast.Unparen(e)
+	if u, isU := e.(*ast.UnaryExpr); isU && u.Op == token.NOT {
+		t, wt, ok := it.zeroTerm(s, u.X)
+		return t, !wt, ok
+	}
+	b, isB := e.(*ast.BinaryExpr)
 	if !isB {
 		return "", false, false
 	}
@@ -457,6 +462,15 @@ func (it *stkInterp) zeroTerm(s *stkState, e ast.Expr) (term string, whenTrue bo
 	case gb.Op == token.GTR:
 		if k, okk := ConstInt(it.p, gb.Y); okk && k == 0 {
 			te, whenTrue = gb.X, false
+		} else if k, okk := ConstInt(it.p, gb.X); okk && k == 1 {
+			te, whenTrue = gb.Y, true // T < 1
+		}
+	case gb.Op == token.GEQ:
+		// T >= 1; 0 >= T (a length is never negative)
+		if k, okk := ConstInt(it.p, gb.Y); okk && k == 1 {
+			te, whenTrue = gb.X, false
+		} else if k, okk := ConstInt(it.p, gb.X); okk && k == 0 {
+			te, whenTrue = gb.Y, true
 		}
 	case b.Op == token.NEQ:
 		if k, okk := ConstInt(it.p, b.Y); okk && k == 0 {
